@@ -558,8 +558,14 @@ class Parser:
                 end_col_offset=end[1] if end else values[-1].end_col_offset,
             )
 
-        if path_tok := (path_tok or self._path_token):
-            node = xonsh_call("__xonsh__.path_literal", node, **path_tok.loc())
+        if path_tok or self._path_token:
+            locs = {
+                "lineno": node.lineno,
+                "col_offset": node.col_offset,
+                "end_lineno": node.end_lineno,
+                "end_col_offset": node.end_col_offset,
+            }
+            node = xonsh_call("__xonsh__.path_literal", node, **locs)  # type: ignore[arg-type]
             self._path_token = None
         return node
 
